@@ -1,5 +1,6 @@
 import JF.Lemmas.C09PoolsClosedCW
 import JF.Lemmas.C09PoolsClosedCW2
+import JF.Gen.WiringsSound
 /-!
 # C09, last clause, CLOSED on the runs of the composed systems (E42): no pool is ever exhausted — without a demand hypothesis
 
@@ -27,6 +28,28 @@ assumed to succeed.
 * `demand_le_pool_every_leg`: at every leg `k` of the run, the oracle of that leg asked no tagger for more in-states than its pool holds.
 * instances for the four shipped coulomb_atoms wirings (`no_pool_exhausted_cell_bounded`, `…_cell_veto`, `…_power_bounded`,
   `…_power_bounded_dump`).
+
+## B. composite objects without cells (`JF.Sys2.Reach2`), activation-aware (namespace `JF.C09Pools.Closed2`)
+
+Setting: a run `Reach2 env mw S needs os cs s` under SystemInv2's `Hyp2` (NO no-tie hypothesis in this world), `pc.w = mw.w`,
+`shortfalls pc = []`, `Fits2 pc env s.cs` (numbers of composite objects / point masses per object ≠ 1, factor maps and factor types of
+the generated data are those of the environment) and the decidable **`selSound mw pc S`**: in every reachable activation state an
+activated tagger with `sel = 0` (asked in leaf mode only) sees leaf mode — the mode READ OFF THE FLAGS, `ModeWiring.mode` — and one
+with `sel = 1` sees root mode.
+* `next_flags_reach`: the activation flags of the next call are a reachable activation state;
+* `demand_le_pool_closed2` (B1): after every leg that did not end the run, every tagger ACTIVATED in the next call yields at most
+  `pool` in-states on the state that call sees (the one-chain clause `Big2.chain` of the joint invariant gives the mode of the state);
+* `no_pool_exhausted_closed2` (B2): the next pass does not raise `TagActivatorError` (leg not assumed to succeed);
+* `selSound_dipole_motion`, `demand_le_pool_dipole_motion`, `no_pool_exhausted_dipole_motion`: `dipoles/dipole_motion.ini`.
+
+## NOT done (named gaps)
+* B: the very FIRST call (`cs = []`, only the start-of-run tagger is asked) is not covered by B1/B2 (A covers it); instances are
+  given for `dipole_motion.ini` only (`selSound` evaluates to `true` for `atom_factors` and `water/single_molecule` as well; the
+  instances are one line each); no concrete multi-leg `Reach2` run is exhibited here as non-vacuity witness of B (SystemInv2's 8-leg run of
+  `dipole_motion.ini` is the candidate), only `Fits2` and `selSound` are shown satisfiable / non-trivial.
+* A: `Fits` is a hypothesis about the reached state (it speaks about quantities no leg changes: `fits_step`, `fits_step_back`,
+  `fits_reach`); the exact reading (`env.o = Ops.rat`), the positive direction of motion and `TieFreeAll` are SystemInv's.
+* composite objects WITH cells (`dipoles/cell_*.ini`, water): `JF.Props.SystemInv3` has no mediator-level `Reach` yet.
 -/
 namespace JF.C09Pools.Closed
 open JF JF.Act JF.Heap JF.Sched JF.Med JF.CW JF.C14 JF.MediatorLoop JF.Kin JF.Sys JF.SystemInv JF.CellTaggers JF.C10C11
@@ -412,6 +435,108 @@ theorem demand_le_pool_closed2 (pc : PoolCfg) (H : Hyp2 env mw S) (hw : pc.w = m
   rw [hw] at hb hp
   exact Nat.le_trans hb hp
 
+/-- **B2 — the next pass of `SingleProcessMediator.run` does not raise `TagActivatorError`** along `Reach2` (after at least one
+leg; the leg is not assumed to succeed, the candidate times are arbitrary): activation-aware, no demand hypothesis -/
+theorem no_pool_exhausted_closed2 (pc : PoolCfg) (H : Hyp2 env mw S) (hw : pc.w = mw.w) (ok : shortfalls pc = [])
+    (hsel : selSound mw pc S = true) {os : List (Oracle XTime)} {cs : List (Committed XTime)} {s : Sys2}
+    (hr : Reach2 env mw S needs os cs s) {cl : Committed XTime} (hl : cs.getLast? = some cl) (hgo : cl.stop = false)
+    (fit : Fits2 pc env s.cs) {o : Oracle XTime}
+    (hy : o.yields = fun T => CW2.yieldCls env T (mw.w.tagger T).cls s.cs) :
+    leg (mwire mw.w S needs) (specI xcfg) s.med o ≠ .error .tagActivatorError := by
+  intro herr
+  obtain ⟨E', hE', hdem⟩ := demand_le_pool_closed2 pc H hw ok hsel hr hl hgo fit
+  obtain ⟨E, tl, sq, big⟩ := jinv_big2 (joint_inv2 H hr) hl
+  have hEE : E' = E := by rw [big.owner] at hE'; exact (Option.some.inj hE').symm
+  subst hEE
+  have hte := leg_tagErr herr
+  rw [big.prec] at hte
+  have hu : update mw.w.wires s.med.act.ts E' o.yields = none := getToRun_started_tagErr big.started big.owner hte
+  have sound' := H.sound
+  unfold WiringSound at sound'
+  rw [H.hS] at sound'
+  simp only [Bool.and_eq_true] at sound'
+  obtain ⟨⟨⟨hwf, _⟩, _⟩, _⟩ := sound'
+  have st := static_of_wfStatic hwf
+  have hend : (mw.w.tagger E').kind ≠ .endOfRun := by
+    have := big.stopEq
+    rw [hgo] at this
+    have h2 : (mwire mw.w S needs).endOfRun cl.handler = ((mw.w.tagger E').kind == .endOfRun) := by
+      show (match owner mw.w.wires cl.handler with
+        | some E => (mw.w.tagger E).kind == HandlerKind.endOfRun
+        | none => false) = _
+      rw [big.owner]
+    rw [h2] at this
+    intro hk; rw [hk] at this; simp at this
+  obtain ⟨m, hc, hm⟩ := big.chain
+  have hi' : Inv env ⟨s.cs, ofW (mw.mode (aStep mw.w (absOf s.mid) E'))⟩ :=
+    ⟨big.good, big.unif, Or.inr ⟨sq, by rw [← hm hgo]; exact hc⟩⟩
+  obtain ⟨hi, hph⟩ := big.phase
+  have hyW : (fun T => (world2 env mw).yieldOf T ⟨_, hi'⟩) = o.yields := by rw [hy]; rfl
+  have hsome : (commit mw.w.wires (world2 env mw) ⟨s.mid, s.ids, ⟨_, hi⟩⟩ E' ⟨_, hi'⟩).isSome = true := by
+    rcases hph with ⟨_, hES, _, _, ids0, out, hfirst, _⟩ | ⟨h, hrunK⟩
+    · subst hES
+      refine start_commit_isSome_act mw.w (world2 env mw) E' H.sound H.hS hfirst s.ids _ _ ?_
+      intro T hT ha
+      exact hdem T (st.creates_lt E' T hT) ha
+    · refine run_next_commit_isSome_act mw.w (world2 env mw) (Tr2 env mw) S H.sound H.hS (hyp2_fps H) (liveIs2 env mw)
+        hrunK.toRun (List.ne_nil_of_mem big.running) hend ?_
+      intro T hT ha
+      exact hdem T (st.creates_lt E' T hT) ha
+  have := update_isSome_of_commit hsome
+  rw [hyW, ← big.trashEq, hu] at this
+  cases this
+
 end
+
+end JF.C09Pools.Closed2
+
+/-! ## B — `dipoles/dipole_motion.ini` (mode switcher) and the other shipped wirings of this world -/
+
+namespace JF.C09Pools.Closed2
+open JF JF.Act JF.Act.Gen JF.Heap JF.Sched JF.Med JF.CW2 JF.C14 JF.MediatorLoop JF.Sys JF.Sys2 JF.Composite JF.C12 JF.SystemInv2
+  JF.C09Pools JF.C09Pools.Gen
+
+/-- the activation-aware link holds for the shipped wirings of this world: in `dipole_motion.ini` the leaf-mode factor taggers
+(`harmonic_leaf`, `coulomb_leaf`, `repulsive_leaf`: `sel = 0`) are activated only in the leaf-mode activation state, the root-mode ones
+(`coulomb_root`, `repulsive_root`: `sel = 1`) only in the root-mode one -/
+theorem selSound_dipole_motion : selSound mcfg_dipoles_dipole_motion pool_dipoles_dipole_motion 10 = true := by decide +kernel
+
+/-- … and it is not trivially true: if `repulsive_leaf` (pool 1; it would yield 2 in-states on a root-mode state) were asked in
+both modes, or if `root_to_leaf` did not deactivate `repulsive_root`, the condition fails -/
+example : selSound mcfg_dipoles_dipole_motion { pool_dipoles_dipole_motion with sel := [0, 0, 1, 1, 1, 2, 2, 2, 2, 2, 2] } 10 = false := by
+  decide +kernel
+
+theorem hyp2_dipole_motion (env : CW2.Env ℚ) (hL : BoxOK env.d env.L) : Hyp2 env mcfg_dipoles_dipole_motion 10 :=
+  ⟨hL, cfg_sound_dipoles_dipole_motion, by decide, by decide, modeSound_dipoles_dipole_motion⟩
+
+/-- **B for `dipoles/dipole_motion.ini`**: along every run, after every leg that did not end the run, every tagger that is ACTIVATED
+in the next call of `get_event_handlers_to_run` yields at most `pool` in-states on the state that call sees — in particular
+`repulsive_leaf` (pool 1) is never asked on a root-mode state, where it would yield 2 -/
+theorem demand_le_pool_dipole_motion (env : CW2.Env ℚ) (hL : BoxOK env.d env.L) {needs : HandlerId → Bool}
+    {os : List (Oracle XTime)} {cs : List (Committed XTime)} {s : Sys2}
+    (hr : Reach2 env mcfg_dipoles_dipole_motion 10 needs os cs s) {cl : Committed XTime} (hl : cs.getLast? = some cl)
+    (hgo : cl.stop = false) (fit : Fits2 pool_dipoles_dipole_motion env s.cs) :
+    ∃ E, owner mcfg_dipoles_dipole_motion.w.wires cl.handler = some E ∧
+      ∀ T, T < 11 → aGet (aStep mcfg_dipoles_dipole_motion.w (absOf s.mid) E) T = true →
+        (CW2.yieldCls env T (mcfg_dipoles_dipole_motion.w.tagger T).cls s.cs).length ≤
+          (mcfg_dipoles_dipole_motion.w.tagger T).pool :=
+  demand_le_pool_closed2 pool_dipoles_dipole_motion (hyp2_dipole_motion env hL) rfl shortfalls_dipoles_dipole_motion
+    selSound_dipole_motion hr hl hgo fit
+
+/-- **… hence no run of `dipole_motion.ini` leaves the loop with `TagActivatorError`** at any pass after the first -/
+theorem no_pool_exhausted_dipole_motion (env : CW2.Env ℚ) (hL : BoxOK env.d env.L) {needs : HandlerId → Bool}
+    {os : List (Oracle XTime)} {cs : List (Committed XTime)} {s : Sys2}
+    (hr : Reach2 env mcfg_dipoles_dipole_motion 10 needs os cs s) {cl : Committed XTime} (hl : cs.getLast? = some cl)
+    (hgo : cl.stop = false) (fit : Fits2 pool_dipoles_dipole_motion env s.cs) {o : Oracle XTime}
+    (hy : o.yields = fun T => CW2.yieldCls env T (mcfg_dipoles_dipole_motion.w.tagger T).cls s.cs) :
+    leg (mwire mcfg_dipoles_dipole_motion.w 10 needs) (specI xcfg) s.med o ≠ .error .tagActivatorError :=
+  no_pool_exhausted_closed2 pool_dipoles_dipole_motion (hyp2_dipole_motion env hL) rfl shortfalls_dipoles_dipole_motion
+    selSound_dipole_motion hr hl hgo fit hy
+
+/-- `Fits2` is satisfiable for the generated data of `dipole_motion.ini`: two dipoles, the factor maps of the shipped factor file -/
+example : Fits2 pool_dipoles_dipole_motion
+    ⟨[1], 1, 2, pool_dipoles_dipole_motion.fs, pool_dipoles_dipole_motion.ftypeOf⟩
+    [⟨⟨[0], none, none⟩, [⟨[0], none, none⟩, ⟨[0], none, none⟩]⟩, ⟨⟨[0], none, none⟩, [⟨[0], none, none⟩, ⟨[0], none, none⟩]⟩] :=
+  ⟨rfl, by decide, rfl, rfl, fun _ => rfl⟩
 
 end JF.C09Pools.Closed2
